@@ -139,7 +139,7 @@ def newTypecast (t : TyId) (inner : Node) : Outcome (Option Node) :=
   match env.kind d with
   | .named =>
     let ti := env.ty d
-    if ti.pkgPath.isNone || env.scopeHas ti.name then .ok (some (.cast inner t (op ti.name))) else
+    if ti.pkgPath.isNone || ti.inScope then .ok (some (.cast inner t (op ti.name))) else
     match ti.pkgPath with
     | none => .ok (some (.cast inner t (op ti.name)))
     | some p =>
